@@ -37,6 +37,11 @@ func c12(c *Ctx) {
 	sUpToDate(c, "R5/S-UPTODATE", "(*Raft).requestPreVote", "RequestPreVoteRequest", "RequestPreVoteResponse", false, true)
 	sLockDiscipline(c, "R10/S-LOCK", "followerReplication")
 	sAtomicOnly(c, "R10/S-ATOMIC")
+	// commit progress with a healthy majority: only voters of the latest
+	// configuration own a slot (a removed server counted for ever stalls commit)
+	coreCommitBundle(c, "R11", "C05.R3")
+	sLockDiscipline(c, "R11/S-LOCK", "commitment")
+	sAsyncNotifyBuffered(c, "R12/S-ASYNC")
 }
 
 func c12R1(c *Ctx, rule string) {
